@@ -20,7 +20,7 @@ class Prop:
             "(remove, remove of an endpoint-less peer, replace_peers, replace+re-add, remove+re-add, private_key new / same / "
             "onto the peer's key / onto a bystander's key / new-and-back, self-peer add, private_key + peer sections incl. the device's own new key in ONE set operation) x 30 probes (TUN to old prefixes, "
             "transport under every session made so far, response to every captured initiation, fresh initiation for old and "
-            "new identity, full new handshakes, old sessions again), plus 32 near-key plans (replacement private key = current key with byte k changed, k = 0..31; peers whose public key is a one-byte neighbour of the device's current / next public key), plus random plans from one PRNG; thorough adds rounds of "
+            "new identity, full new handshakes, old sessions again), plus 32 near-key plans (replacement private key = current key with byte k changed, k = 0..31; peers whose public key is a one-byte neighbour of the device's current / next public key), plus random plans from one PRNG; plus revocations placed inside the device's own goroutines through a harness-owned Logger / the sim SendGate (between two packets of a TUN batch, between consuming an initiation and answering it, between consuming a response and deriving the session, while a timer callback or the sequential sender is inside Bind.Send with 1 or 5 encrypted packets queued behind it); thorough adds rounds of "
             "{initiation or TUN packet in flight || remove=true}; non-trivial = at least one revocation that hits a peer "
             "with a session, a pending handshake or staged packets and at least three probes with an effect before or after; "
             "distinct by content hash of plan and observations")
@@ -54,7 +54,12 @@ class Prop:
             "actions_not_applicable": sum(c.get("skipped", 0) for c in cases),
             "steps_not_settled": sum(c.get("slow", 0) for c in cases),
             "stuck": [c["stuck"] for c in cases if c.get("stuck")][:5],
-            "race_rounds": sum(1 for c in races if c["race"]["kind"] not in ("drain", "inside-batch", "inside-handshake", "timer-callback")),
+            "race_rounds": sum(1 for c in races if c["race"]["kind"] not in ("drain", "inside-batch", "inside-handshake", "timer-callback", "queued", "inside-response")),
+            "queued_rounds": sum(1 for c in races if c["race"]["kind"] == "queued"),
+            "queued_packets_waiting_at_removal": sum(c["race"].get("queued_packets", 0) for c in races if c["race"]["kind"] == "queued"),
+            "queued_datagrams_begun_after_peer_stopped": sum(c["race"]["datagrams_after_return"] for c in races if c["race"]["kind"] == "queued"),
+            "inside_response_rounds": sum(1 for c in races if c["race"]["kind"] == "inside-response"),
+            "inside_response_current_keypair_after_identity_change": sum(1 for c in races if c["race"].get("current_keypair_after")),
             "inside_handshake_rounds": sum(1 for c in races if c["race"]["kind"] == "inside-handshake"),
             "timer_callback_rounds": sum(1 for c in races if c["race"]["kind"] == "timer-callback"),
             "timer_callback_removal_returned_while_send_parked": sum(1 for c in races if c["race"].get("removal_returned_while_send_parked")),
@@ -119,7 +124,7 @@ class Prop:
         return fs
 
     def shrink_candidates(self, case):
-        if case.get("mode", 0) == 1 or (len(case["plan"]) == 1 and case["plan"][0].split()[0] in ("drain", "insidebatch", "insidehandshake", "race", "timercallback")):
+        if case.get("mode", 0) == 1 or (len(case["plan"]) == 1 and case["plan"][0].split()[0] in ("drain", "insidebatch", "insidehandshake", "insideresponse", "queued", "race", "timercallback")):
             return
         plan = case["plan"]
         n = len(plan)
@@ -137,6 +142,12 @@ class Prop:
         clause = f["pos"] % 10
         if case.get("mode", 0) == 1 and str(case.get("gen", "")).startswith("timer-callback"):
             return {2: "removal-timer-callback-ghost-index-entry", 1: "removal-timer-callback-datagram-after-return"}.get(clause, "removal-timer-callback-clause%d" % clause)
+        if case.get("mode", 0) == 1 and str(case.get("gen", "")).startswith("queued"):
+            return {2: "removal-queued-ghost-index-entry", 1: "removal-queued-data-transmitted-after-peer-stopped"}.get(clause, "removal-queued-clause%d" % clause)
+        if case.get("mode", 0) == 1 and str(case.get("gen", "")).startswith("inside-response"):
+            return {2: "removal-inside-response-ghost-index-entry", 1: "removal-inside-response-datagram-after-return",
+                    3: "identity-change-inside-response-transport-under-old-handshake",
+                    4: "identity-change-inside-response-handshake-under-old-identity"}.get(clause, "revocation-inside-response-clause%d" % clause)
         if case.get("mode", 0) == 1 and str(case.get("gen", "")).startswith("inside-handshake"):
             return {2: "removal-inside-handshake-ghost-index-entry", 1: "removal-inside-handshake-datagram-after-return",
                     4: "identity-change-inside-handshake-response-under-old-identity"}.get(clause, "revocation-inside-handshake-clause%d" % clause)
